@@ -145,14 +145,18 @@ theorem pks_fill (p : Parent) (a seed : Nat) : pks (p.fill a seed) = pks p := by
   simp only [Function.comp_def]
   split <;> rfl
 
-theorem pks_realloc_move (p : Parent) {a dest : Addr} (new : Nat) (h : dest ≠ a) :
-    pks (p.realloc a new dest) = (dest, new) :: pks (p.release a) := by
-  simp [Parent.realloc, h, pks, fresh_size]
+theorem pks_reallocNull (p : Parent) (a new : Nat) : pks (p.reallocNull a new) = (a, new) :: pks p := by
+  simp [pks, Parent.reallocNull, fresh_size]
 
-theorem pks_realloc_keep (p : Parent) {a : Addr} (new : Nat) (h : p.live a = true) :
-    pks (p.realloc a new a) = (a, new) :: pks (p.release a) := by
+theorem pks_realloc_move (p : Parent) {a dest : Addr} (old new : Nat) (h : dest ≠ a) :
+    pks (p.realloc a old new dest) = (dest, new) :: pks (p.release a) := by
+  simp only [Parent.realloc, h, if_false]
+  split <;> simp [pks, fresh_size, Parent.release]
+
+theorem pks_realloc_keep (p : Parent) {a : Addr} (old new : Nat) (h : p.live a = true) :
+    pks (p.realloc a old new a) = (a, new) :: pks (p.release a) := by
   obtain ⟨b, hb⟩ := live_get p a h
-  simp [Parent.realloc, hb, pks]
+  simp [Parent.realloc, hb, pks, Parent.release]
 
 theorem not_mem_release (p : Parent) (a : Addr) : a ∉ (pks (p.release a)).map (·.1) := by
   rw [pks_release, map_filter_fst]; simp
@@ -182,8 +186,8 @@ theorem fresh_ne_zero {p : Parent} {a : Addr} (h : freshAddr p a = true) : a ≠
 
 theorem release_eq_self {p : Parent} {a : Addr} (h : a ∉ (pks p).map (·.1)) : p.release a = p := by
   cases p with
-  | mk bl =>
-    simp only [Parent.release, Parent.mk.injEq, List.filter_eq_self, bne_iff_ne, ne_eq]
+  | mk bl hr hc =>
+    simp only [Parent.release, Parent.mk.injEq, List.filter_eq_self, bne_iff_ne, ne_eq, and_true]
     intro e he h'
     exact h (by simp only [pks, List.map_map, List.mem_map, Function.comp_def]; exact ⟨e, he, h'⟩)
 
@@ -232,7 +236,7 @@ theorem step_inv {s : Seq} (op : Op) (hl : s.tr.level ≠ .none) (h : SeqInv s) 
           have hu := untrack_inv (par := s.par) 0 hl h
           rw [release_eq_self h.nonzero] at hu
           have hl' : (untrack s.tr 0).level ≠ .none := by rw [level_untrack]; exact hl
-          exact ⟨track_inv hl' hu (fresh_not_mem hc) (fresh_ne_zero hc) (pks_acquire _ _ _),
+          exact ⟨track_inv hl' hu (fresh_not_mem hc) (fresh_ne_zero hc) (pks_reallocNull _ _ _),
                  by simp only [level_track, level_untrack]⟩
       · rename_i hp0
         split
@@ -247,11 +251,11 @@ theorem step_inv {s : Seq} (op : Op) (hl : s.tr.level ≠ .none) (h : SeqInv s) 
             refine ⟨?_, by simp only [level_track, level_untrack]⟩
             by_cases hk : dest = p
             · subst hk
-              exact track_inv hl' hu (not_mem_release _ _) hp0 (pks_realloc_keep _ _ hlive)
+              exact track_inv hl' hu (not_mem_release _ _) hp0 (pks_realloc_keep _ _ _ hlive)
             · have hfr : freshAddr s.par dest = true := by
-                simp only [not_and, Bool.not_eq_true, Bool.not_eq_false'] at hd
-                simpa using hd hk
-              exact track_inv hl' hu (fresh_not_mem_release hfr) (fresh_ne_zero hfr) (pks_realloc_move _ _ hk)
+                simp only [not_or, not_and, Bool.not_eq_true, Bool.not_eq_false'] at hd
+                simpa using hd.1 hk
+              exact track_inv hl' hu (fresh_not_mem_release hfr) (fresh_ne_zero hfr) (pks_realloc_move _ _ _ hk)
 
 end AwsVerif.Proofs.C17
 
@@ -299,11 +303,12 @@ theorem run_inv (s : Seq) (ops : List Op) (hl : s.tr.level ≠ .none) (h : SeqIn
     have := step_inv o hl h
     exact ih _ (by rw [this.2]; exact hl) this.1
 
-theorem new_level (lvl : Level) (frames : Nat) : (Seq.new lvl frames).tr.level = lvl := by
+theorem new_level (lvl : Level) (frames : Nat) (par0 : Parent) : (Seq.new lvl frames par0).tr.level = lvl := by
   simp [Seq.new, Tracer.new]
 
-theorem new_inv (lvl : Level) (frames : Nat) : SeqInv (Seq.new lvl frames) :=
-  ⟨rfl, by simp [Seq.new, pks], by simp [Seq.new, Tracer.new, pks, sumSnd], by simp [Seq.new, pks]⟩
+theorem new_inv (lvl : Level) (frames : Nat) (par0 : Parent) (h0 : par0.blocks = []) : SeqInv (Seq.new lvl frames par0) :=
+  ⟨by simp [Seq.new, Tracer.new, ks, pks, h0], by simp [Seq.new, pks, h0], by simp [Seq.new, Tracer.new, pks, sumSnd, h0],
+   by simp [Seq.new, pks, h0]⟩
 
 /-- Σ requested sizes of the live blocks -/
 def liveBytes (p : Parent) : Nat := (p.blocks.map (·.2.size)).sum
@@ -311,17 +316,17 @@ def liveBytes (p : Parent) : Nat := (p.blocks.map (·.2.size)).sum
 theorem liveBytes_eq (p : Parent) : liveBytes p = sumSnd (pks p) := by
   simp [liveBytes, sumSnd, pks, List.map_map, Function.comp_def]
 
-theorem seq_main (lvl : Level) (frames : Nat) (ops : List Op) :
-    ((Seq.new lvl frames).run ops).tr.bytes =
-        (if lvl = .none then 0 else liveBytes ((Seq.new lvl frames).run ops).par % W) ∧
-    ((Seq.new lvl frames).run ops).tr.count =
-        (if lvl = .none then 0 else ((Seq.new lvl frames).run ops).par.blocks.length) := by
-  have hlev := run_level (Seq.new lvl frames) ops
+theorem seq_main (lvl : Level) (frames : Nat) (par0 : Parent) (h0 : par0.blocks = []) (ops : List Op) :
+    ((Seq.new lvl frames par0).run ops).tr.bytes =
+        (if lvl = .none then 0 else liveBytes ((Seq.new lvl frames par0).run ops).par % W) ∧
+    ((Seq.new lvl frames par0).run ops).tr.count =
+        (if lvl = .none then 0 else ((Seq.new lvl frames par0).run ops).par.blocks.length) := by
+  have hlev := run_level (Seq.new lvl frames par0) ops
   rw [new_level] at hlev
   by_cases hn : lvl = .none
   · subst hn
     simp [Tracer.bytes, Tracer.count, hlev]
-  · have hi := run_inv (Seq.new lvl frames) ops (by rw [new_level]; exact hn) (new_inv lvl frames)
+  · have hi := run_inv (Seq.new lvl frames par0) ops (by rw [new_level]; exact hn) (new_inv lvl frames par0 h0)
     simp only [Tracer.bytes, Tracer.count, hlev, hn, if_false]
     refine ⟨by rw [liveBytes_eq]; exact hi.acct, ?_⟩
     have := congrArg List.length hi.same
